@@ -47,10 +47,9 @@ func (s *c10ShapedSigner) Sign(rand io.Reader, digest []byte, opts crypto.Signer
 
 func c10ShortSpace(c *fw.Ctx) {
 	type shape struct{ dr, ds int } // octets missing from r and from s
-	shapes := []shape{{0, 0}, {1, 0}, {0, 1}}
-	if c.Thorough {
-		shapes = append(shapes, shape{1, 1}, shape{2, 0}, shape{0, 2}) // 2^14..2^16 signing attempts each
-	}
+	// two missing octets take about 2^16 signing attempts (a second or two with P-256, much longer with P-384):
+	// in the quick tier they are asked of the P-256 key only
+	shapes := []shape{{0, 0}, {1, 0}, {0, 1}, {1, 1}, {2, 0}, {0, 2}}
 	c.Space("ecdsa-integer-lengths", "the fixed ECDSA P-256 / P-384 keys signing RRsets of {MX, A} through a harness signer that re-signs until r and s have the wanted lengths: (octets missing from r, from s) ∈ "+fmt.Sprint(shapes)+": the RRSIG holds r and s each left-padded to the field size, the reference verifier and Verify accept it, one flipped bit is rejected; non-trivial: r or s is short", true,
 		func(emit func(func(*fw.R))) {
 			for _, kn := range []string{"ecdsap256", "ecdsap256-d0", "ecdsap384"} {
@@ -70,6 +69,10 @@ func c10ShortSpace(c *fw.Ctx) {
 								return
 							}
 							n := (priv.Curve.Params().BitSize + 7) / 8
+							if sh.dr+sh.ds > 1 && (n > 32 || tn != "MX" || kn != "ecdsap256") && !c.Thorough {
+								r.Count("skipped in the quick tier (≥ 2 missing octets: P-256, MX only)", 1)
+								return
+							}
 							signer := &c10ShapedSigner{key: priv, rLen: n - sh.dr, sLen: n - sh.ds}
 							if sh.dr+sh.ds > 0 {
 								r.Nontrivial()
